@@ -34,9 +34,13 @@ LEVEL_NOTE = ("Trusted: Lean kernel; " + _ops.TRUST_RUNTIME + "; js/ops_runtime.
               "bracket matching and their TypeScript annotations removed by a fixed set of rewrites (a failure to compile is a broken tie), the "
               "store proxy, getLink/assertLink, component rendering (read at once) and user resolvers are stand-ins listed in the file; the three "
               "closures that would start a refetch are replaced by a record of the artifact the real code selected. The compiler-side model "
-              "(OpsCover) is hand-written from create_merged_selection_set.rs / variable_context.rs / reader_ast.rs and tied to the code only "
-              "through the witnesses and the static oracle on the artifacts (readers' keys ⊆ normalization AST), not by a differential run.")
-PARTIAL = ["the theorem is about the compiler-side model (keys); that a covered key is found in the store after normalizing a conforming "
+              "(OpsCover) is hand-written from create_merged_selection_set.rs / variable_context.rs / reader_ast.rs; it is tied to the code by a "
+              "differential run on every entrypoint of the modelled subset (`c10m` lines: the model's mergeKeys / readKeys of the project, "
+              "translated by harness/ops/src/tie.rs, must equal the keys of the normalization AST / the keys the reader ASTs read in the "
+              "artifacts the REAL compiler wrote; `id`/`__typename` excluded), by the witnesses and by the static oracle on all artifacts.")
+PARTIAL = ["the compiler-side model covers server scalar/linked fields and eagerly read client fields (≈ half of the generated entrypoints; "
+           "abstract types / asConcreteType, pointers, __link/__refetch, exposed fields, @loadable are outside it and covered by the oracles only)",
+           "the theorem is about the compiler-side model (keys); that a covered key is found in the store after normalizing a conforming "
            "response is checked by running the real runtime and the Lean runtime model, not proved",
            "responses: no interface-typed `node(id)` answered with a type other than the one the compiler's own wrapper refines to; equal "
            "field+arguments under one parent get one value",
@@ -54,13 +58,15 @@ def run(ctx):
 
 
 def nontrivial(req, impl):
-    return req.startswith("c10\t") and "norm:ok" in impl
+    return (req.startswith("c10\t") and "norm:ok" in impl) or (req.startswith("c10m\t") and impl.startswith("in "))
 
 
 def classify(req, impl):
     k = _ops.case_classes(req, impl)
     if k is not None:
         return k
+    if req.startswith("c10m\t"):
+        return ["tie=in" if impl.startswith("in ") else "tie=out"]
     if req.startswith("c10\t"):
         f = req.split("\t")
         out = ["shape=" + (f[4] if len(f) > 4 else "?")]
@@ -92,4 +98,7 @@ def check_distribution(dist, cases):
             return f"no {s} responses"
     if dist.get("class:refetch-selected", 0) == 0:
         return "no read reached a refetchable selection"
+    ties = dist.get("class:tie=in", 0)
+    if ties * 5 < dist.get("c10m", 0) or ties == 0:
+        return f"only {ties}/{dist.get('c10m', 0)} entrypoints are in the subset of the compiler-side model"
     return None
